@@ -106,6 +106,7 @@ enum Repr {
     Promotable, // boxed slice, KIND_VEC until the first clone
     Promoted,   // promotable, already cloned once
     Frozen,     // BytesMut::freeze of a shared BytesMut -> bytes_mut.rs Shared
+    PromotableAdvanced, // boxed slice, KIND_VEC, view advanced before it is shared
 }
 
 fn make(r: Repr) -> (Bytes, *const u8, Option<Bytes>) {
@@ -127,6 +128,12 @@ fn make(r: Repr) -> (Bytes, *const u8, Option<Bytes>) {
             let keep = b.clone();
             let p = b.as_ptr();
             (b, p, Some(keep))
+        }
+        Repr::PromotableAdvanced => {
+            let mut b = Bytes::from(DATA.to_vec());
+            let p = b.as_ptr();
+            b.advance(3);
+            (b, p, None)
         }
         Repr::Frozen => {
             let mut m = BytesMut::with_capacity(DATA.len() + 4);
@@ -153,7 +160,7 @@ fn model(f: impl Fn() + Sync + Send + 'static) {
 }
 
 fn for_reprs(f: impl Fn(Repr) + Sync + Send + Copy + 'static) {
-    for r in [Repr::Shared, Repr::Promotable, Repr::Promoted, Repr::Frozen] {
+    for r in [Repr::Shared, Repr::Promotable, Repr::Promoted, Repr::Frozen, Repr::PromotableAdvanced] {
         model(move || f(r));
     }
 }
@@ -200,7 +207,8 @@ fn p2_clone_through_shared_reference() {
                 let g = g.clone();
                 thread::spawn(move || {
                     let c: Bytes = (*a).clone();
-                    assert_eq!(c.as_ptr() as usize, base);
+                    assert_eq!(c.as_ptr(), a.as_ptr(), "clone moved");
+                    assert_eq!(c.len(), a.len());
                     check_read(&c, &g, base);
                     let u = a.is_unique();
                     let _ = u;
@@ -232,8 +240,9 @@ fn p3_into_vec_vs_read_drop() {
             drop(a);
         });
         let t2 = thread::spawn(move || {
+            let want: Vec<u8> = DATA[b.as_ptr() as usize - base..].to_vec();
             let mut v: Vec<u8> = b.into();
-            assert_eq!(&v[..], DATA);
+            assert_eq!(&v[..], &want[..]);
             let zero_copy = v.as_ptr() as usize == base;
             if zero_copy {
                 g2.writing(|| v[0] = b'X');
@@ -266,9 +275,10 @@ fn p4_try_into_mut_vs_drop() {
             check_read(&a, &g1, base);
             drop(a);
         });
+        let start = b.as_ptr() as usize;
         let t2 = thread::spawn(move || match b.try_into_mut() {
             Ok(mut m) => {
-                assert_eq!(m.as_ptr() as usize, base, "unique conversion must not copy");
+                assert_eq!(m.as_ptr() as usize, start, "unique conversion must not copy");
                 g2.writing(|| m[0] = b'Y');
                 drop(m);
                 true
@@ -303,9 +313,10 @@ fn p5_two_exclusive_attempts() {
             }
             (z, v)
         });
+        let start = b.as_ptr() as usize;
         let t2 = thread::spawn(move || {
             let m = BytesMut::from(b);
-            let z = m.as_ptr() as usize == base;
+            let z = m.as_ptr() as usize == start;
             if z {
                 g2.writing(|| ());
             }
